@@ -335,6 +335,7 @@ def rule_filter_and_weights(ctx, R, path, who):
     n = 0
     found = {'dist': False, 'votes': False, 'weight': False}
     dist_cbs, votes_cbs = [], []
+    from lib import subst_upvars as _su2
     for cb in all_closures(F, b):
         ctx.read(cb)
         eb = ExprBuilder(cb)
@@ -401,6 +402,28 @@ def rule_filter_and_weights(ctx, R, path, who):
                         found['weight'] = True
                         ctx.fail(R, cb, who + ':weight-term', 'vote weight is computed as Sub(%r, %r) (expected largest '
                                  'distance minus distance): closer matches get smaller weights' % (a, b2), s_['ln'])
+    if not found['votes']:
+        # loop form: `for (pair, dists) in groups { if dists.len() < min_votes { continue } .. push(elt) }` — the
+        # element is built only on the `len >= min_votes` side
+        for i in sorted(b.live_blocks()):
+            for s_ in b.blocks[i]['st']:
+                rv = s_.get('rv') or {}
+                if s_['k'] == 'assign' and rv.get('k') == 'agg' and rv.get('ak') == 'adt' and \
+                        norm(rv.get('adt', '')).endswith('TopNVotingElt') and b.in_loop(i):
+                    for k in path_conditions(b, i):
+                        cm = k.cmp()
+                        if not cm:
+                            continue
+                        cm = (cm[0], _su2(F, b, cm[1]), _su2(F, b, cm[2]))
+                        o = orient(cm, lambda e: not e.has_field('min_votes'))
+                        if o and o[2].has_field('min_votes'):
+                            n += 1
+                            found['votes'] = True
+                            votes_loop = True
+                            ctx.check(o[0] == 'Ge' and o[1].has_call('len'), R, b,
+                                      who + ':group-kept-iff-len-ge-min_votes', '%r %s min_votes' % (o[1], o[0]),
+                                      'a (query, track) group is kept when `%r %s min_votes` (expected len >= '
+                                      'min_votes)' % (o[1], o[0]))
     # only counted distances are grouped: the acceptance test sits UPSTREAM of the group that is measured against
     # min_votes, in the same adaptor chain
     if dist_cbs and votes_cbs:
